@@ -65,7 +65,12 @@ def gen(rs, tier):
             step = r.choice([10, 10, 300, 1800, 3600])
             d["chargingCurrent"] = {"current": [round(r.uniform(0, 32), 2) for _ in range(k)],
                                     "timestamps": [e + step * j for j in range(k)]}
-            d["pilotSignal"] = {"pilot": [32] * k, "timestamps": [e + step * j for j in range(k)]}
+            ts2 = [e + step * j for j in range(k)]
+            if k >= 3 and r.random() < 0.5:
+                # the second series of the document was sampled on its own clock: same length, same first and last stamp, other
+                # instants in between
+                ts2 = [ts2[0]] + sorted(ts2[0] + 1 + r.randrange(max(1, ts2[-1] - ts2[0] - 1)) for _ in range(k - 2)) + [ts2[-1]]
+            d["pilotSignal"] = {"pilot": [32] * k, "timestamps": ts2}
         docs.append(d)
     if len(docs) >= 2 and r.random() < 0.3:
         # two documents of different time zones that carry the very same instant (hence the same RFC-1123 string)
